@@ -33,7 +33,9 @@ Local Open Scope list_scope.
 
 (** * Line numbers *)
 
-(** Code points at which [str.splitlines] ends a line. CR LF counts once. *)
+(** Code points at which [str.splitlines] ends a line (the engine's line
+    convention, shared with exceptions._error_context; the same set as
+    [LexUni.linebreak_ranges], see Proofs/ExtractI18n_cross.v). CR LF counts once. *)
 Definition is_linebreak (c : N) : bool :=
   existsb (N.eqb c) [10; 11; 12; 13; 28; 29; 30; 133; 8232; 8233]%N.
 
